@@ -218,7 +218,7 @@ def gen_type(rnd, depth):
 
 
 def gen_attr(rnd, depth):
-    from xdsl.dialects.builtin import (AffineMapAttr, ArrayAttr, BytesAttr, DenseArrayBase, DenseIntOrFPElementsAttr, DictionaryAttr, FileLineColLoc, FloatAttr,
+    from xdsl.dialects.builtin import (AffineMapAttr, ArrayAttr, BytesAttr, ComplexType, DenseArrayBase, DenseIntOrFPElementsAttr, DictionaryAttr, FileLineColLoc, FloatAttr,
                                        IndexType, IntAttr, IntegerAttr, IntegerType, Signedness, StringAttr, SymbolRefAttr, TensorType, UnitAttr, UnknownLoc, VectorType,
                                        f16, f32, f64, i1, i8, i32, i64)
     from xdsl.ir.affine import AffineMap
@@ -242,8 +242,18 @@ def gen_attr(rnd, depth):
             vals = [v if abs(v) < 6e4 or math.isinf(v) or math.isnan(v) else 1.0 for v in vals]
         if et is f32:
             vals = [v if abs(v) < 3.5e38 or math.isinf(v) or math.isnan(v) else 1.0 for v in vals]
+        if rnd.random() < 0.3:
+            # complex elements: NaN / infinity components are printed as bit patterns next to decimal ones
+            return DenseIntOrFPElementsAttr.from_list(TensorType(ComplexType(et), [n]), [(v, rnd.choice(vals)) for v in vals])
         return DenseIntOrFPElementsAttr.from_list(TensorType(et, [n]), vals)
     if k == 5:
+        if rnd.random() < 0.25:
+            # rank >= 3: the nested-list form has to chunk by the product of the trailing dimensions
+            shape = rnd.choice([[2, 3, 4], [2, 2, 2], [1, 2, 2, 2], [2, 1, 3], [3, 1, 1], [2, 3, 1], [1, 1, 5]])
+            et = rnd.choice([i1, i32, f32])
+            cnt = math.prod(shape)
+            vals = [(i % 2 if et is i1 else (float(i) if et is f32 else i)) for i in range(cnt)]
+            return DenseIntOrFPElementsAttr.from_list((VectorType if rnd.random() < 0.3 else TensorType)(et, shape), vals)
         et = rnd.choice([i1, i8, i32, i64, IndexType()])
         n = rnd.randrange(0, 4)
         hi = 1 if et is i1 else 127
@@ -269,7 +279,7 @@ def gen_attr(rnd, depth):
     if k == 7:
         from xdsl.dialects.builtin import NoneAttr
 
-        from xdsl.dialects.builtin import BoolAttr, StridedLayoutAttr
+        from xdsl.dialects.builtin import BoolAttr, CallSiteLoc, FusedLoc, NameLoc, StridedLayoutAttr
 
         return rnd.choice([UnitAttr(), NoneAttr(), UnknownLoc(), FileLineColLoc(StringAttr("f.mlir"), IntAttr(3), IntAttr(7)), SymbolRefAttr("a"), SymbolRefAttr("a b", ["c", "d-e"]),
                            # names that are ALMOST bare identifiers (a bare identifier followed / preceded by a newline or space, empty, digits first, dots and dollars)
@@ -277,6 +287,10 @@ def gen_attr(rnd, depth):
                            SymbolRefAttr("9a"), SymbolRefAttr("a.b$c"), SymbolRefAttr("a\n\n"),
                            FileLineColLoc(StringAttr(""), IntAttr(0), IntAttr(0)), BoolAttr(False, i1), BoolAttr(True, i1),
                            StridedLayoutAttr([rnd.choice([0, 1, -3, None]) for _ in range(rnd.randrange(0, 3))], rnd.choice([0, 5, -1, None])),
+                           FusedLoc([UnknownLoc(), FileLineColLoc(StringAttr("g"), IntAttr(1), IntAttr(2))], NoneAttr()), FusedLoc([UnknownLoc()], StringAttr("meta")),
+                           FusedLoc([], NoneAttr()), FusedLoc([UnknownLoc(), UnknownLoc()], DictionaryAttr({"a": UnitAttr()})),
+                           CallSiteLoc(UnknownLoc(), FileLineColLoc(StringAttr("c"), IntAttr(4), IntAttr(5))), NameLoc(StringAttr("n"), NoneAttr()),
+                           NameLoc(StringAttr("n m"), UnknownLoc()),
                            AffineMapAttr(AffineMap.identity(2)), AffineMapAttr(AffineMap.from_callable(lambda i, j: (i + 2 * j, j % 3, i // 2)))])
     if k in (8, 9):
         return ArrayAttr([gen_attr(rnd, depth - 1) for _ in range(rnd.randrange(0, 4))])
